@@ -1,9 +1,143 @@
 package main
 
 import (
+	"context"
+	"fmt"
+	"strings"
+
+	"github.com/plgd-dev/go-coap/v3/message"
+	"github.com/plgd-dev/go-coap/v3/message/codes"
+	"github.com/plgd-dev/go-coap/v3/message/pool"
+	"github.com/plgd-dev/go-coap/v3/net/responsewriter"
+	tcpclient "github.com/plgd-dev/go-coap/v3/tcp/client"
+	udpclient "github.com/plgd-dev/go-coap/v3/udp/client"
+
 	"verif/ev"
 	"verif/mcx"
+	"verif/vrt"
+	"verif/worlds/tcpw"
+	"verif/worlds/udpw"
 )
 
-// runConn adds the connection-level scenarios (filled in with the udp-conn world).
-func runConn(r *ev.Run, scs *[]*mcx.Scenario) {}
+// Connection-level part: real udp/tcp client conns. A burst of requests arrives (Conn.Process /
+// the stream reader); the application handler either returns at once or issues a blocking Get on
+// the same connection (nested once or twice), the peer answers the nested requests.
+
+type ccfg struct {
+	T       string // udp | tcp
+	Q       int
+	N       int
+	Nest    int // 0: handlers return; 1: handler of request 1 issues a Get; 2: the nested exchange's... second request also nests
+	Preempt int
+}
+
+func (c ccfg) String() string {
+	return fmt.Sprintf("%s-conn burst of %d requests queue=%d nesting=%d preempt<=%d", c.T, c.N, c.Q, c.Nest, c.Preempt)
+}
+
+func connScenario(c ccfg) *mcx.Scenario {
+	return &mcx.Scenario{
+		Name:   c.String(),
+		Bounds: mcx.Bounds{Preempt: c.Preempt, Env: -1, Select: -1},
+		Body: func(s *vrt.Sched) func() (string, []mcx.Finding) {
+			var fs []mcx.Finding
+			var entry []string
+			handled := map[string]int{}
+			nestedDone := 0
+			vrt.App("peer", func() {
+				var doGet func(path string, tok byte) error
+				body := func(r *pool.Message) {
+					p, _ := r.Path()
+					entry = append(entry, p)
+					if c.Nest >= 1 && p == "/req1" || c.Nest >= 2 && p == "/req2" {
+						// a handler that calls back into the same connection and blocks on the answer
+						if err := doGet("/nested"+p[4:], byte(0x50+len(entry))); err != nil {
+							fs = append(fs, mcx.Finding{Sig: "conn/nested-request-failed", What: fmt.Sprintf("%s: nested Get inside the handler of %s failed: %v", c, p, err)})
+						}
+						nestedDone++
+					} else {
+						vrt.Point("handler body")
+					}
+					handled[p]++
+				}
+				var inject func(m message.Message)
+				var outs func() []message.Message
+				if c.T == "udp" {
+					w := udpw.New(udpw.Opts{NStart: 4, MaxRetransmit: 1, LimitTotal: 8, LimitEndpoint: 8, QueueSize: c.Q,
+						Handler: func(_ *responsewriter.ResponseWriter[*udpclient.Conn], r *pool.Message) { body(r) }})
+					doGet = func(path string, tok byte) error {
+						req := w.Request(context.Background(), codes.GET, path, message.Token{0xF0, tok}, message.NonConfirmable, nil)
+						_, err := w.CC.Do(req)
+						return err
+					}
+					inject = func(m message.Message) { m.Type, m.MessageID = message.NonConfirmable, w.PeerMID(); _ = w.Inject(m) }
+					outs = func() []message.Message {
+						var ms []message.Message
+						for _, o := range w.NewOuts() {
+							ms = append(ms, o.M)
+						}
+						return ms
+					}
+				} else {
+					w := tcpw.New(tcpw.Opts{LimitTotal: 8, LimitEndpoint: 8, QueueSize: c.Q, DisableCSM: true,
+						Handler: func(_ *responsewriter.ResponseWriter[*tcpclient.Conn], r *pool.Message) { body(r) }})
+					doGet = func(path string, tok byte) error {
+						req := w.CC.AcquireMessage(context.Background())
+						req.SetCode(codes.GET)
+						req.SetToken(message.Token{0xF0, tok})
+						_ = req.SetPath(path)
+						_, err := w.CC.Do(req)
+						return err
+					}
+					inject = func(m message.Message) { w.Inject(m) }
+					outs = w.NewOuts
+				}
+				// the burst: all requests arrive back to back (the producer blocks only when the queue is full)
+				for i := 1; i <= c.N; i++ {
+					inject(message.Message{Code: codes.POST, Token: message.Token{0x30 + byte(i)}, Options: message.Options{{ID: message.URIPath, Value: []byte(fmt.Sprintf("req%d", i))}}})
+				}
+				// the peer answers nested requests as they appear
+				for round := 0; round < 8; round++ {
+					vrt.Quiesce("peer: settle")
+					acted := false
+					for _, m := range outs() {
+						if m.Code == codes.GET {
+							inject(message.Message{Code: codes.Content, Token: m.Token, Payload: []byte("nested-answer")})
+							acted = true
+						}
+					}
+					if !acted {
+						break
+					}
+				}
+			})
+			return func() (string, []mcx.Finding) {
+				for i := 1; i <= c.N; i++ {
+					p := fmt.Sprintf("/req%d", i)
+					if handled[p] != 1 && !s.Deadlock {
+						fs = append(fs, mcx.Finding{Sig: "conn/message-not-handled-exactly-once", What: fmt.Sprintf("%s: %s handled %d times; entry order %v", c, p, handled[p], entry)})
+					}
+				}
+				if c.Nest == 0 {
+					for i, p := range entry {
+						if p != fmt.Sprintf("/req%d", i+1) {
+							fs = append(fs, mcx.Finding{Sig: "conn/dispatch-out-of-arrival-order", What: fmt.Sprintf("%s: handlers return without blocking, yet entry order is %v", c, entry)})
+							break
+						}
+					}
+				}
+				return strings.Join(entry, ",") + fmt.Sprint(nestedDone), fs
+			}
+		},
+	}
+}
+
+func runConn(r *ev.Run, scs *[]*mcx.Scenario) {
+	for _, t := range []string{"udp", "tcp"} {
+		for _, q := range []int{0, 1, 16} {
+			*scs = append(*scs, connScenario(ccfg{T: t, Q: q, N: 4, Nest: 0, Preempt: ev.Pick(r, 1, 2)}))
+			*scs = append(*scs, connScenario(ccfg{T: t, Q: q, N: 3, Nest: 1, Preempt: ev.Pick(r, 1, 2)}))
+		}
+		*scs = append(*scs, connScenario(ccfg{T: t, Q: 1, N: 3, Nest: 2, Preempt: ev.Pick(r, 0, 1)}))
+	}
+}
